@@ -85,6 +85,12 @@ class Derivate:
         knotvector = curve.knotvector
         matrix = heavy.Calculus.derivate_nonrational_spline(tuple(knotvector))
         ctrlpoints = np.dot(matrix, curve.ctrlpoints)
+        degree = knotvector.degree
+        ctrlpoints = [
+            point
+            for i, point in enumerate(ctrlpoints)
+            if knotvector[i + 1 + degree] != knotvector[i + 1]
+        ]
         nodes = tuple(
             knot
             for knot in knotvector.knots
